@@ -214,18 +214,8 @@ def r3_centring_and_copies(idx, r):
               msg="each material must receive its own COPY of the custom isotopic vector; sharing the blueprint's dict lets a material modification on one component rewrite the input for all later components")
     ck = idx.method(BP + "componentBlueprint.ComponentBlueprint", "_conformKwargs")
     skips = sorted(norm(n.test) for n in walk_local(ck.node) if isinstance(n, ast.If) and len(n.body) == 1 and isinstance(n.body[0], ast.Continue))
-    chain = []
-    for n in walk_local(ck.node):
-        if isinstance(n, ast.If) and "attr.name" in norm(n.test):
-            cur = n
-            while True:
-                chain.append((norm(cur.test), norm(cur.body[0])))
-                if len(cur.orelse) == 1 and isinstance(cur.orelse[0], ast.If):
-                    cur = cur.orelse[0]
-                else:
-                    break
-            break
-    skipped = sorted(t for t, b in chain if b == "continue")
+    # every `if <test>: continue` of the loop, wherever it stands (head of the chain, inside it, or a guard of its own)
+    skipped = skips
     r.require(skipped == ["attr.name == 'flags'", "attr.name == 'latticeIDs'", "attr.name == 'shape' or val == attr.default"], "conformKwargs:frozen-skip-set", ck, msg=f"every blueprint attribute except shape/defaults/latticeIDs/flags is forwarded to the component: skips {skipped}")
     r.require(any(s.kind == "subscript" and s.chain == "kwargs" and norm(s.node.slice) == "attr.name" and norm(s.value) == "value" for s in iter_stores(ck.node)), "conformKwargs:forwards", ck, msg="forwarded under the attribute's own name")
 
